@@ -125,6 +125,14 @@ class Flow:
                 else:
                     out |= self.deps(ch, size_only, depth)
             return out
+        if k == "CallExpr" and n.callee and n.callee.get("repo") and not size_only and self.program is not None and n.tc in ("int", "bool", "enum"):
+            # an integer helper whose result depends on its container arguments only through their sizes
+            # ( int _frame_size(x, d) { if (x.size() != d.size()) throw; return x.size(); } ): the call depends on the sizes, too
+            if _returns_shape_only(self.program, n.callee.get("usr")):
+                out = set()
+                for a in n.call_args():
+                    out |= self.deps(a, is_container_type(a.type or ""), depth)
+                return out
         out = set()
         for ch in n.c:
             out |= self.deps(ch, size_only, depth)
@@ -397,6 +405,23 @@ class Flow:
                 if self.control:
                     out |= self._control_atoms(n)
         return out
+
+
+def _returns_shape_only(program, usr):
+    """memoised: the value returned by the repository function depends on its container parameters through size() only"""
+    cache = program.__dict__.setdefault("_ret_shape_cache", {})
+    if usr in cache:
+        return cache[usr]
+    cache[usr] = False            # recursion guard
+    g = program.functions.get(usr)
+    if g is None or g.body() is None or g.get("nodes", 0) > 300:
+        return False
+    fl = Flow(g, None, control=True)
+    deps = fl.return_deps()
+    names = {p["n"] for p in g.params if is_container_type(p.get("t", ""))}
+    ok = all(not (a[0] == "parm" and a[1] in names and a[2] != "size") for a in deps) and not any(a[0] in ("this", "global") for a in deps)
+    cache[usr] = ok
+    return ok
 
 
 def _within(n, anc):
